@@ -185,3 +185,67 @@ Lemma reach_sound_l c ci k w ex l s' :
 Proof.
   intros H Hin. destruct (reach_chain c ci k _ _ _ H Hin) as (s & [<-|[]] & Hc). exact Hc.
 Qed.
+
+(** * Code-point mode: the text-level membership the runner uses is the cluster-level one *)
+Lemma concat_singles_inj (a b : word) : singles a -> singles b -> concat a = concat b -> a = b.
+Proof.
+  unfold singles. revert b. induction a as [|x a IH]; intros b Ha Hb E.
+  - destruct b as [|y b]; [reflexivity|]. inversion Hb as [|? ? Hy _]; subst.
+    destruct y as [|y0 [|? ?]]; cbn in Hy, E; discriminate.
+  - inversion Ha as [|? ? Hx Ha']; subst.
+    destruct x as [|x0 [|? ?]]; cbn in Hx; try discriminate.
+    destruct b as [|y b]; [cbn in E; discriminate|].
+    inversion Hb as [|? ? Hy Hb']; subst.
+    destruct y as [|y0 [|? ?]]; cbn in Hy; try discriminate.
+    cbn in E. injection E as -> E. f_equal. apply IH; assumption.
+Qed.
+
+Lemma valid_edit_string c w ex k :
+  valid_ed c w ex k ->
+  match k with
+  | EIns _ e => In e (itab_strings (itab c))
+  | ERep _ e => In e (rtab_strings (rtab c))
+  | _ => True
+  end.
+Proof.
+  destruct k as [|i e|i|i e|i]; intros V; try exact Logic.I.
+  - destruct V as (_ & _ & _ & _ & es & Hl & He).
+    unfold itab_strings. apply in_flat_map.
+    destruct (ins_lookup_In _ _ _ _ Hl) as (en & H1 & H2). exists en. split; [exact H1|].
+    subst es. change (In e (map fst (snd en))). apply in_map_iff. exists (e, true). split; [reflexivity | exact He].
+  - destruct V as (_ & _ & _ & s & es & _ & Hl & He).
+    unfold rtab_strings. apply in_flat_map.
+    destruct (rep_lookup_In _ _ _ _ _ Hl) as (en & H1 & H2). exists en. split; [exact H1|].
+    subst es. change (In e (map fst (snd en))). apply in_map_iff. exists (e, true). split; [reflexivity | exact He].
+Qed.
+
+Lemma apply_word_singles c w ex k :
+  cp_cfg c -> valid_ed c w ex k -> singles w -> singles (apply_word k w).
+Proof.
+  intros [Ci Cr] V Hw. pose proof (valid_edit_string c w ex k V) as Hs.
+  pose proof (edit_shape_l c w ex k V) as Sh. unfold singles in *.
+  destruct k as [|i e|i|i e|i].
+  - rewrite Sh. exact Hw.
+  - destruct Sh as (a & b & -> & _ & ->). apply Forall_app in Hw as [Ha Hb].
+    apply Forall_app. split; [exact Ha|]. apply Forall_app. split; [apply Ci; exact Hs | exact Hb].
+  - destruct Sh as (a & x & b & -> & _ & ->). apply Forall_app in Hw as [Ha Hb].
+    inversion Hb; subst. apply Forall_app. split; assumption.
+  - destruct Sh as (a & x & b & -> & _ & ->). apply Forall_app in Hw as [Ha Hb].
+    inversion Hb; subst. apply Forall_app. split; [exact Ha|]. apply Forall_app. split; [apply Cr; exact Hs | assumption].
+  - destruct Sh as (a & x & y & b & -> & _ & ->). apply Forall_app in Hw as [Ha Hb].
+    inversion Hb as [|? ? Hx Hb']; subst. inversion Hb' as [|? ? Hy Hb'']; subst.
+    apply Forall_app. split; [exact Ha|]. repeat constructor; assumption.
+Qed.
+
+Lemma step_agree_cp c s wv exv :
+  cp_cfg c -> singles (s_w s) -> singles (v_cls wv) ->
+  step_agree false c s (L [wv; exv]) = true -> step_agree true c s (L [wv; exv]) = true.
+Proof.
+  intros C Hw Hw'. unfold step_agree.
+  destruct (outcomes c (s_cd s) (s_cs s) (s_w s) (s_ex s)) as [l|] eqn:E; [|discriminate].
+  intros H. apply existsb_exists in H as (m & Hm & H). apply existsb_exists. exists m. split; [exact Hm|].
+  apply andb_true_iff in H as [H1 H2]. rewrite H2, andb_true_r. apply nlist_eqb_eq in H1.
+  destruct (outcomes_In _ _ _ _ _ _ _ E Hm) as (k & V & ->). cbn [fst] in *.
+  apply cls_eqb_eq. apply concat_singles_inj; [|exact Hw'|exact H1].
+  eapply apply_word_singles; eassumption.
+Qed.
